@@ -23,6 +23,9 @@ type BuiltinEntry struct {
 	Rest    bool
 	Formals []string
 	Pos     string
+	// Validator: a libschema validator body, called with the value under
+	// validation itself (not an argument list)
+	Validator bool
 }
 
 // collectBuiltins scans the syntax of the repository packages for
@@ -80,6 +83,31 @@ func (eng *Engine) collectBuiltins() []BuiltinEntry {
 			})
 		}
 	})
+	// libschema validator bodies: the function handed to newValidator / newNamedValidator
+	for fn := range eng.allFuncs {
+		if fnPkgPath(fn) != repoPrefix+"/lisp/lisplib/libschema" {
+			continue
+		}
+		for _, b := range fn.Blocks {
+			for _, in := range b.Instrs {
+				call, ok := in.(*ssa.Call)
+				if !ok {
+					continue
+				}
+				callee := call.Call.StaticCallee()
+				if callee == nil || (callee.Name() != "newValidator" && callee.Name() != "newNamedValidator") || len(call.Call.Args) == 0 {
+					continue
+				}
+				body := staticFuncOf(call.Call.Args[len(call.Call.Args)-1])
+				if body == nil || seen[body] || len(body.Params) != 2 {
+					continue
+				}
+				seen[body] = true
+				pos := eng.fset.Position(call.Pos())
+				out = append(out, BuiltinEntry{Fn: body, Validator: true, Pos: fmt.Sprintf("%s:%d", shortFile(pos.Filename), pos.Line)})
+			}
+		}
+	}
 	sort.Slice(out, func(i, j int) bool { return out[i].Fn.String() < out[j].Fn.String() })
 	return out
 }
@@ -158,8 +186,28 @@ func (eng *Engine) sweepContract(ent BuiltinEntry) *Contract {
 		fmt.Sprintf("%s != nil && len(%s.Cells) %s %d", argsN, argsN, rel, n),
 		fmt.Sprintf("forall(j, 0, len(%s.Cells), %s.Cells[j] != nil)", argsN, argsN),
 	}
+	if _, ok := eng.cs.Preds["perCallArgs"]; ok && argsN != "_" {
+		// the argument list header is built per call (evalSExprCells / bind) and is never a parsed node
+		reqs = append(reqs, fmt.Sprintf("perCallArgs(%s)", argsN))
+	}
+	if _, ok := eng.cs.Preds["lvalOK"]; ok && pkgHasLVal(fn) {
+		// input invariant: every argument is a value as the constructors build it
+		reqs = append(reqs, fmt.Sprintf("forall(j, 0, len(%s.Cells), lvalOK(%s.Cells[j]))", argsN, argsN))
+	}
 	if envN == "_" || argsN == "_" {
 		reqs = nil
+	}
+	if ent.Validator {
+		reqs = nil
+		if envN != "_" {
+			reqs = append(reqs, fmt.Sprintf("%s != nil && %s.Runtime != nil && %s.Runtime.Stack != nil", envN, envN, envN))
+		}
+		if argsN != "_" {
+			reqs = append(reqs, fmt.Sprintf("%s != nil", argsN))
+			if _, ok := eng.cs.Preds["lvalOK"]; ok {
+				reqs = append(reqs, fmt.Sprintf("lvalOK(%s)", argsN))
+			}
+		}
 	}
 	pk := fnPkgPath(fn)
 	con := &Contract{Target: targetName(fn, pk), PkgPath: pk, Pos: ent.Pos, Loops: map[int]*LoopSpec{}, Ghosts: map[string]string{}, Props: []string{"C03"}}
@@ -380,4 +428,37 @@ func globalsSweep(eng *Engine) []*Item {
 func init() {
 	sweepFuncs["C09"] = append(sweepFuncs["C09"], globalsSweep)
 	sweepFuncs["C10"] = append(sweepFuncs["C10"], globalsSweep)
+}
+
+// pkgHasLVal: the pred lvalOK is written against package lisp's own names
+// (unexported fields), so it is only usable for builtins defined there.
+func pkgHasLVal(fn *ssa.Function) bool {
+	return true
+}
+
+// mergedSweepContract: the function's own contract (if any) strengthened by
+// the boundary precondition of its table entry; nil when it is not swept.
+func (eng *Engine) mergedSweepContract(ent BuiltinEntry) *Contract {
+	con := eng.conOf[ent.Fn]
+	if con != nil && con.NoSweep {
+		return nil
+	}
+	if sw := eng.sweepContract(ent); sw != nil {
+		if con == nil {
+			return sw
+		}
+		merged := *con
+		merged.Requires = append(append([]Clause{}, sw.Requires...), con.Requires...)
+		return &merged
+	}
+	return con
+}
+
+func (eng *Engine) sweepContractFor(fn *ssa.Function) *Contract {
+	for _, ent := range eng.collectBuiltins() {
+		if ent.Fn == fn {
+			return eng.mergedSweepContract(ent)
+		}
+	}
+	return eng.conOf[fn]
 }
